@@ -124,6 +124,19 @@ CLAIMED = {
        "through the re-open only. Known finding: staged chunks not frame aligned; fixed: CALC commands in RDWR mode.",
   technique="Coq proof (induction over write partitions) + model recomputation of every stored PEAK + independent-scan oracle for SFC_CALC_*",
   design_ref="DESIGN.md section 5 C18"),
+ "C12": dict(
+  text="Theorems (Coq) over StrMeta.v: the output of psf_strlcpy_crlf never contains a bare CR or LF; every line end (CR LF, LF CR, CR, LF) becomes exactly "
+       "one CR LF so the number of lines is preserved (two bare line ends stay an empty line); all other characters pass through in order; with room "
+       "nothing is cut; the 32-slot string table refines a map type -> string (a successful set is what get returns, every other type's string is "
+       "untouched whether the set succeeded or not). Tie: K correspondence of psf_strlcpy_crlf / psf_store_string / psf_get_string called directly "
+       "(exact-size blocks under ASan) + set / close / re-open / get oracle through WAV, WAVEX, RF64, AIFF, CAF for strings of all ten types, bext "
+       "(all fields, histories with every line-end style), cart, 0..100 cues, instrument with 0..16 loops, channel maps, in random order, and sets "
+       "made too late.",
+  note="Trusted: Coq kernel, hand-written StrMeta.v (tied by K on every run), extraction, sfdrive. The chunk writers/readers of wavlike.c, aiff.c, caf.c are "
+       "covered by the round-trip oracle only. Cue names and instrument detune/gain/velocity/key ranges are not compared (WAV does not store them); the "
+       "AIFF writer stores neither cues nor instrument (accepted and ignored).",
+  technique="Coq proof (line-end normaliser, string table refinement) + differential K correspondence + metadata round-trip oracle",
+  design_ref="DESIGN.md section 5 C12"),
 }
 
 
